@@ -589,13 +589,105 @@ static void vf_native(void)
         ])
 
 
+def unit_sector_define():
+    """producer of the sector indices that _movingSectorNsmax / _movingSelect require to lie in [0, nsect): the requirement of those two contracts"""
+    pre = """
+typedef _Bool bool;
+#define GV_PI  3.14159265358979323846264338328
+int S_nsect;
+#define getNSect() (S_nsect)
+/* libm: atan is an uninterpreted function with its range and sign (all that the index range needs) */
+#ifndef VF_NATIVE
+double __CPROVER_uninterpreted_atan(double);
+static double atan(double x) { double r = __CPROVER_uninterpreted_atan(x); __CPROVER_assume(r >= -1.5707963267948966 && r <= 1.5707963267948966 && (x < 0. || r >= 0.) && (x > 0. || r <= 0.)); return r; }
+#endif
+"""
+    contract = "\n".join(["__CPROVER_requires(2 <= S_nsect && S_nsect <= 1000)", "__CPROVER_requires(-1.e300 <= dx && dx <= 1.e300 && -1.e300 <= dy && dy <= 1.e300)",
+                          "__CPROVER_assigns()",
+                          "__CPROVER_ensures(0 <= __CPROVER_return_value && __CPROVER_return_value < S_nsect)"])
+    f = Fn("NeighMoving::_movingSectorDefine", NEIGH, r"^int NeighMoving::_movingSectorDefine\(double dx, double dy\) const\s*$", csig="int NeighMoving_movingSectorDefine(double dx, double dy)",
+           contract=contract)
+    h = """
+void vf_harness(void)
+{
+  vf_havoc_inputs();
+  S_nsect = W_nsect;
+  int s = NeighMoving_movingSectorDefine(W_dx, W_dy);
+  VF_REACH();
+}
+"""
+    native = r"""
+#include <math.h>
+static void vf_native(void)
+{
+  S_nsect = W_nsect;
+  if (!(2 <= S_nsect && S_nsect <= 1000) || !(-1.e300 <= W_dx && W_dx <= 1.e300 && -1.e300 <= W_dy && W_dy <= 1.e300)) exit(77);
+  int s = NeighMoving_movingSectorDefine(W_dx, W_dy);
+  __CPROVER_assert(0 <= s && s < S_nsect, "the sector index lies in [0, nsect)");
+}
+"""
+    return Unit("C06.movingSectorDefine.range", [f], prelude=pre, harness=h, native=native, inputs=[("double", "W_dx"), ("double", "W_dy"), ("int", "W_nsect")],
+                enforce="NeighMoving_movingSectorDefine", backends=("cadical", "minisat", "cvc5"), timeout=900,
+                claim=("NeighMoving::_movingSectorDefine returns, for every finite increment and every number of sectors, an index in [0, nsect): the "
+                       "requirement under which _movingSectorNsmax and _movingSelect are proved (an index equal to nsect makes _movingSelect write past its counters "
+                       "and loop for ever)"),
+                assumptions=["atan is an uninterpreted function constrained to its range [-pi/2, pi/2] and sign; which sector the index designates is NOT decided here "
+                             "(trigonometry and floating-point rounding: see the sampled unit C06.movingSectorDefine.sampled)"],
+                canaries=[{"fn": "NeighMoving::_movingSectorDefine", "rx": r"angle = GV_PI \+ atan\(dy / dx\);", "rp": "angle = atan(dy / dx) - GV_PI;", "expect": r"postcondition"}])
+
+
+def unit_sector_sampled():
+    """BOUNDED stand-in (native sampling): which sector the index designates needs trigonometry and floating-point rounding, outside the verifier's reach"""
+    pre = """
+typedef _Bool bool;
+#define GV_PI  3.14159265358979323846264338328
+int S_nsect;
+#define getNSect() (S_nsect)
+#ifdef VF_NATIVE
+#include <math.h>
+#else
+double atan(double);
+#endif
+"""
+    f = Fn("NeighMoving::_movingSectorDefine", NEIGH, r"^int NeighMoving::_movingSectorDefine\(double dx, double dy\) const\s*$", csig="int NeighMoving_movingSectorDefine(double dx, double dy)")
+    native = r"""
+static void vf_native(void)
+{
+  long count = 0; int shown = 0;
+  const double radii[3] = { 1.e-3, 1., 1.e3 };
+  for (int nsect = 2; nsect <= 16; nsect++)
+    for (int k = 0; k < 1440; k++)
+      for (int ir = 0; ir < 3; ir++)
+      {
+        double theta = (k + 0.371) * (2. * GV_PI / 1440.);                 /* polar angle of the increment, in [0, 2 pi) */
+        double pos = theta / (2. * GV_PI / nsect);                         /* position in sector units */
+        if (fabs(pos - floor(pos + 0.5)) < 1.e-6) continue;                /* stay clear of the sector boundaries */
+        int expected = (int) floor(pos);
+        double dx = radii[ir] * cos(theta), dy = radii[ir] * sin(theta);
+        S_nsect = nsect;
+        int got = NeighMoving_movingSectorDefine(dx, dy);
+        count++;
+        if (got != expected && shown < 5) { printf("SAMPLE nsect=%d dx=%.17g dy=%.17g sector=%d expected=%d\n", nsect, dx, dy, got, expected); shown++; }
+        if (got != expected) __CPROVER_assert(0, "the sector index is floor(polar angle of (dx, dy) / (2 pi / nsect)) on the sample");
+      }
+  printf("SAMPLED-COUNT %ld\n", count);
+}
+"""
+    return Unit("C06.movingSectorDefine.sampled", [f], prelude=pre, harness="void vf_harness(void) { }\n", native=native, native_only=True,
+                bounded="SAMPLED natively: nsect 2..16 x 1440 directions (quarter-degree steps, offset from every sector boundary by > 1e-6 sector) x 3 radii = about 64 000 inputs",
+                claim=("NeighMoving::_movingSectorDefine (real text compiled natively with libm): on the stated sample the index equals floor(polar angle of the "
+                       "increment / (2 pi / nsect)) computed independently with cos/sin - the sectors are the angular sectors counted counter-clockwise from the x axis"),
+                assumptions=["NOT a proof: a finite sample; atan/cos/sin from libm", "the index RANGE for all inputs is the proved unit C06.movingSectorDefine.range"],
+                canaries=[{"fn": "NeighMoving::_movingSectorDefine", "rx": r"angle = GV_PI \+ atan\(dy / dx\);", "rp": "angle = GV_PI - atan(dy / dx);", "expect": r"sampled"}])
+
+
 def units(tier):
     nmax = int(__import__("os").environ.get("VF_NMAX", 0)) or (6 if tier == "quick" else 10)
-    return [unit_nheap_push(nmax), unit_sort_order(nmax), unit_sort_multiset(nmax), unit_sector_nsmax(nmax, 3), unit_moving_select(nmax, 3)]
+    return [unit_nheap_push(nmax), unit_sort_order(nmax), unit_sort_multiset(nmax), unit_sector_nsmax(nmax, 3), unit_moving_select(nmax, 3), unit_sector_define(), unit_sector_sampled()]
 
 
 META = {
-    "level": "proof",
+    "level": "other",
     "explanation": "",
     "trusted_base": ["CBMC 6.11 (goto-cc, goto-instrument --dfcc, SAT/SMT back ends)"],
     "assumptions": [],
@@ -603,9 +695,10 @@ META = {
 }
 
 MANIFEST = {
-    "category": "proof",
-    "text": ("Function and loop contracts on the real k-NN heap / ball-tree / sector-selection kernels, discharged by CBMC for "
-             "all inputs and all iteration counts (container capacity capped where stated in the evidence)."),
+    "category": "other",
+    "text": ("Function and loop contracts on the real k-NN heap / sort / sector-quota / sector-cycling kernels and on the range of the sector index, discharged by "
+             "CBMC for all inputs and all iteration counts (container capacity capped where stated in the evidence); plus ONE bounded native stand-in (sampled) "
+             "for which angular sector the index designates."),
     "note": ("Trusted: CBMC; lexical extraction rules listed in evidence; std::sort-based arrangeInPlace, SpacePoint distance "
              "(metric axioms), atan range. Capacity caps reported per unit."),
     "design_ref": "DESIGN.md 3 C06",
